@@ -100,7 +100,7 @@ def _name_is_own_error(tree, var: str, lineno: int, own) -> bool:
     return False
 
 
-HOSTILE_ATOMS = ["²", "①", "१२", "1e999", "-", "1_0", "0x1F", "٣.٥", "1e", "++1", "９", "⅕", "1" * 5000, "nan", "inf", "a{99999999999}", "(" * 3000 + ")" * 3000, "[" * 30, "\\", "(?P<a>x)(?P<a>y)", "x{2,1}", "\\777777"]
+HOSTILE_ATOMS = ["²", "①", "१२", "1e999", "9" * 400, "-" + "9" * 400, "-", "1_0", "0x1F", "٣.٥", "1e", "++1", "９", "⅕", "1" * 5000, "nan", "inf", "a{99999999999}", "(" * 3000 + ")" * 3000, "[" * 30, "\\", "(?P<a>x)(?P<a>y)", "x{2,1}", "\\777777"]
 
 
 def escape_probe_texts() -> list[str]:
